@@ -48,6 +48,27 @@ def bool_summary(fn):
 
 
 def access_path(fn, x, _seen=None, _depth=0):
+    """access path with projections of tuples / closure environments built in place resolved even when the projection
+    is applied further along a chain of copies and references (`(&(a, b)).0` through temporaries)"""
+    root, steps = _access_path(fn, x, _seen, _depth)
+    for _ in range(8):
+        if not (root[0] == "local" and steps and steps[0][0] == "f" and str(steps[0][1]).isdigit()):
+            break
+        ds = fn.defs().get(root[1], [])
+        if len(ds) != 1 or ds[0][1] == "term":
+            break
+        rv = ds[0][2]["rv"]
+        if not (rv["k"] == "agg" and ("tuple" in rv or "closure" in rv) and int(steps[0][1]) < len(rv["ops"])):
+            break
+        o = rv["ops"][int(steps[0][1])]
+        if is_const(o):
+            return ("const", const_repr(o)), tuple(steps[1:])
+        r2, s2 = _access_path(fn, o, None, _depth + 1)
+        root, steps = r2, tuple(s2) + tuple(steps[1:])
+    return root, steps
+
+
+def _access_path(fn, x, _seen=None, _depth=0):
     """Canonical access path of an operand / place / local: (root, steps) where root is
     ('arg', n) | ('call', bi) | ('local', l) | ('const', repr) | ('upvar', i) and steps is a
     tuple of ('v', Variant) / ('f', field) / ('i',) with derefs and Box internals dropped.
@@ -93,11 +114,11 @@ def access_path(fn, x, _seen=None, _depth=0):
     if si == "term":
         c = callee(s)
         if PASS_THROUGH.search(c) and s["args"]:
-            r, st = access_path(fn, s["args"][0], _seen, _depth + 1)
+            r, st = _access_path(fn, s["args"][0], _seen, _depth + 1)
             return r, st + tuple(steps)
         if PURE_GETTERS.search(c) and s["args"]:
             # a pure getter of an immutable receiver: all calls denote the same value
-            r, st = access_path(fn, s["args"][0], _seen, _depth + 1)
+            r, st = _access_path(fn, s["args"][0], _seen, _depth + 1)
             return ("pure", c.split("::")[-1], path_key((r, st))), tuple(steps)
         return ("call", bi), tuple(steps)
     rv = s["rv"]
@@ -106,22 +127,22 @@ def access_path(fn, x, _seen=None, _depth=0):
         o = rv["o"]
         if is_const(o):
             return ("const", const_repr(o)), tuple(steps)
-        r, st = access_path(fn, o, _seen, _depth + 1)
+        r, st = _access_path(fn, o, _seen, _depth + 1)
         # Box internals exposed through a transmute of `box.0.pointer`
         st = list(st)
         while len(st) >= 1 and st[-1] in (("f", "pointer"), ("f", "0")) and k == "cast":
             st.pop()
         return r, tuple(st) + tuple(steps)
     if k in ("ref", "rawptr"):
-        r, st = access_path(fn, rv["p"], _seen, _depth + 1)
+        r, st = _access_path(fn, rv["p"], _seen, _depth + 1)
         return r, st + tuple(steps)
-    if k == "agg" and "tuple" in rv and steps and steps[0][0] == "f" and str(steps[0][1]).isdigit() and \
+    if k == "agg" and ("tuple" in rv or "closure" in rv) and steps and steps[0][0] == "f" and str(steps[0][1]).isdigit() and \
             int(steps[0][1]) < len(rv["ops"]):
         # a field of a tuple built in place: (a, b).0 is a
         o = rv["ops"][int(steps[0][1])]
         if is_const(o):
             return ("const", const_repr(o)), tuple(steps[1:])
-        r, st = access_path(fn, o, _seen, _depth + 1)
+        r, st = _access_path(fn, o, _seen, _depth + 1)
         return r, st + tuple(steps[1:])
     return ("local", l), tuple(steps)
 
